@@ -1,5 +1,56 @@
+EXPECTED_FACTS = {
+    "c05_fn_MemoryChannel.NewAofWritter": "52e1e3aef6be",
+    "c05_fn_MemoryChannel.appendAof": "41f5c4ff6044",
+    "c05_fn_MemoryChannel.appendRdb": "61c73b595ad7",
+    "c05_fn_MemoryChannel.ensureCapacityLocked": "9270ccab32fd",
+    "c05_fn_MemoryChannel.finishAof": "33a581f9b423",
+    "c05_fn_MemoryRdbWriter.ingest": "3a3d4e48195e",
+    "c05_fn_StoreChannel.StartPoint": "3619db42fbec",
+    "c05_fn_Storer.DelRunId": "185b1021ccc4",
+    "c05_fn_Storer.LatestOffset": "746ae6e8d9b5",
+    "c05_fn_Storer.SetRunId": "b7248cd4986f",
+    "c05_fn_Storer.VerifyRunId": "a57cab4ebe39",
+    "c05_fn_Storer.newRunId": "8cd70f4f6865",
+    "c05_fn_changeReplId": "04016ea37ece",
+    "c05_fn_dataSet.Right": "9c1a50ba8cc6",
+    "c05_writer_offset_flow": [
+        "syncMeta: locSp, err = ri.channel.StartPoint(inputIds)",
+        "syncMeta: clearLocal = true",
+        "syncMeta: locSp = StartPoint{RunId: sOffset.RunId, Offset: outSp.Offset}",
+        "syncMeta: clearLocal = true",
+        "syncMeta: locSp = StartPoint{RunId: sOffset.RunId, Offset: outSp.Offset}",
+        "syncMeta: if isFullSync || clearLocal -> ri.channel.DelRunId(ri.channel.RunId())",
+        "syncMeta: locSp.RunId = sOffset.RunId",
+        "syncMeta: locSp.Offset = sOffset.Offset",
+        "fetchInput: ri.syncData(wait, redisCli, isFullSync, rdbSize, locSp.Offset)",
+        "syncData: ri.channel.NewRdbWriter(redisCli.Client().BufioReader(), offset, rdbSize)",
+        "syncData: ri.channel.NewAofWritter(redisCli.Client().BufioReader(), offset)",
+        "syncData: wait.IsClosed()",
+        "syncData: rdbWriter.Close()",
+        "syncData: aofWriter.Close()",
+        "syncData: ri.channel.NewAofWritter(redisCli.Client().BufioReader(), offset)",
+        "syncIncr: writer.Start()",
+        "syncIncr: writer.Close()",
+        "syncRdb: writer.Start()",
+        "syncRdb: writer.Close()",
+        "aofSync: sp, err := rf.channel.StartPoint([]string{followerSp.RunId})",
+        "aofSync: left := resp.GetOffset()",
+        "aofSync: if left > sp.Offset && !sp.IsInitial()",
+        "aofSync: err = rf.channel.DelRunId(followerSp.RunId)",
+        "aofSync: sp.Offset = left",
+        "aofSync: err = rf.channel.SetRunId(followerSp.RunId)",
+        "aofSync: writer, err := rf.channel.NewAofWritter(reader, resp.GetOffset())",
+        "rdbSync: left := resp.GetOffset()",
+        "rdbSync: err := rf.channel.DelRunId(followerSp.RunId)",
+        "rdbSync: followerSp.Offset = left",
+        "rdbSync: err := rf.channel.SetRunId(followerSp.RunId)",
+        "rdbSync: writer, err := rf.channel.NewRdbWriter(reader, left, rdbSize)"
+    ]
+}
+
 PROP = {
-    "lean_modules": ["GunYu.Props.C05"],
+    "lean_modules": ["GunYu.Props.C05", "GunYu.Props.C05Recv", "GunYu.Props.C05Callers", "GunYu.Props.C05Dirs",
+                     "GunYu.Props.C05Progress", "GunYu.Props.C05Window"],
     "audit_namespaces": ["GunYu.Props.C05"],
     "required_theorems": [
         "GunYu.Props.C05.disk_reader_delivers",
@@ -42,8 +93,49 @@ PROP = {
         "GunYu.Props.C05.mem_copy_step_faithful",
         "GunYu.Props.C05.mem_reset_empties_index",
         "GunYu.Props.C05.mem_stale_reader_has_no_successor",
+        "GunYu.Props.C05.mem_recv_invariant",
+        "GunYu.Props.C05.mem_recv_invariant_settled",
+        "GunYu.Props.C05.mem_snapshot_holds_received",
+        "GunYu.Props.C05.mem_offered_snapshot_complete",
+        "GunYu.Props.C05.mem_snapshot_reader_delivers_received",
+        "GunYu.Props.C05.mem_received_blocked_prefix",
+        "GunYu.Props.C05.mem_received_whole_chunk",
+        "GunYu.Props.C05.mem_received_only_from_appends",
+        "GunYu.Props.C05.disk_answer_is_continuation",
+        "GunYu.Props.C05.disk_answer_stays_continuation",
+        "GunYu.Props.C05.disk_gc_keeps_end_or_clears",
+        "GunYu.Props.C05.disk_callers_respect_protocol",
+        "GunYu.Props.C05.disk_reader_delivers_for_callers",
+        "GunYu.Props.C05.disk_refines_for_callers",
+        "GunYu.Props.C05.disk_reader_delivers_next",
+        "GunYu.Props.C05.disk_valid_offset_has_delivering_move",
+        "GunYu.Props.C05.diskd_invariant",
+        "GunYu.Props.C05.diskd_refines_per_id",
+        "GunYu.Props.C05.diskd_parked_is_closed",
+        "GunYu.Props.C05.diskd_reader_delivers",
+        "GunYu.Props.C05.diskd_snapshot_reader_delivers",
+        "GunYu.Props.C05.diskd_valid_iff_readable",
+        "GunYu.Props.C05.diskd_snapshot_offered_iff_complete",
+        "GunYu.Props.C05.diskd_reader_delivers_next",
+        "GunYu.Props.C05.diskd_other_dirs_untouched",
+        "GunYu.Props.C05.diskd_switch_back_restores",
+        "GunYu.Props.C05.diskd_invalidation_closes_readers",
+        "GunYu.Props.C05.diskd_extends_single",
+        "GunYu.Props.C05.disk_snapshot_reader_delivers_next",
+        "GunYu.Props.C05.disk_valid_snapshot_offset_has_delivering_move",
+        "GunYu.Props.C05.diskd_verify_head_current_or_absent",
+        "GunYu.Props.C05.diskd_callers_respect_protocol",
+        "GunYu.Props.C05.diskd_keys_and_positive",
+        "GunYu.Props.C05.mem_tail_invariant",
+        "GunYu.Props.C05.mem_reader_delivers_next",
+        "GunYu.Props.C05.mem_pump2_is_two_steps",
+        "GunYu.Props.C05.mem_valid_offset_has_delivering_move",
+        "GunYu.Props.C05.mem_window_readers_true",
+        "GunYu.Props.C05.mem_window_segments_true",
+        "GunYu.Props.C05.mem_window_pending_true",
+        "GunYu.Props.C05.mem_window_no_wake_is_atomic",
     ],
-    "expected_facts": {},
+    "expected_facts": EXPECTED_FACTS,
     "harness": [
         {"name": "C05", "pkg": "./pkg/store/", "test": "TestVerifC05"},
         {"name": "C05mem", "pkg": "./syncer/", "test": "TestVerifC05mem"},
@@ -76,20 +168,58 @@ PROP = {
             "or is empty (hand-over, D30). C05chan reports as NOTES (counters, never violations) what C05 does not state: the wrappers' answers for '?' "
             "and StartPoint, a complete snapshot that is not offered, slow writers; the reference count after all readers closed is compared with the "
             "model (tie), not monitored. "
+            "Session 4: SEVERAL RUN-ID DIRECTORIES in one disk store (Model/StoreDirs.lean, driver state DiskD): a third of the cases "
+            "starts with one or two directories left by an earlier process (prologue: writer, appends, restart); generated ops SetRunId to an "
+            "EXISTING directory (from a current id and from no current id), DelRunId of a FOREIGN id and of a missing id, VerifyRunId over "
+            "mixes of missing ids / '?' / '' / other directories / the current id, restart (clean stop + NewStorer on the same base directory); "
+            "ddump lists the files of every other directory; the oracle keeps one history per directory; monitor startpoint-not-latest: what "
+            "VerifyRunId answers is LatestOffset() of the id it made current (the `ask` of the callers' protocol). Memory: mdump prints the bytes "
+            "the offered snapshot HOLDS (all segments, fnv64) against the model's ghost of the bytes RECEIVED (Model/StoreMemRecv.lean), monitor "
+            "snapshot-bytes-wrong: held == what the harness fed and the writer took, checked after every op whether or not a reader replays. "
+            "dread / dreadgc are Disk.follow / Disk.followGc (Model/StoreProgress.lean), the functions of the catch-up theorems. "
+            "Source facts (harness/extract/c05.go): c05_writer_offset_flow (every assignment to locSp / locSp.Offset in syncMeta, the syncData call, "
+            "the DelRunId guard, aofSync / rdbSync's guard, DelRunId and writer constructors with arguments) pins what `callerAllows` transcribes; "
+            "c05_fn_* digests pin the hand-transcribed functions behind `ask`, the directory operations, the two lock sections of NewAofWritter and "
+            "the count behind the snapshot ghost. "
             "distinct_nontrivial = cases with rotation and a reader that crossed a segment boundary",
     "trusted": [
         "testing/synctest quiescence (memory harness): after synctest.Wait every goroutine of the channel is durably blocked",
         "reference counts are derived from the reader list in the model; the harness compares them with rwRef / readers.Load() after every op",
     ],
     "assumptions": [
-        "callers' protocol (Disk.okOp): a disk stream writer continues where the held stream ends (input.go/replica.go pass LatestOffset / the snapshot offset); "
-        "the disk backend itself does not check this (the memory backend does: mem_refuses_discontinuous)",
+        "callers' protocol (Disk.okOp / DiskD.okOp), stream-writer clause: DERIVED, no clause looks at the cache in the state of the call (r4): the caller model "
+        "(Proofs/StoreCaller.lean over one directory, Proofs/StoreDirsCaller.lean over several) allows NewAofWritter(off) only when the run KNOWS `asked off` (the answer of its "
+        "LatestOffset / VerifyRunId query, or the offset of the snapshot it announced with NewRdbWriter) or `cleared` (it issued DelRunId of the current id, or its query found "
+        "nothing); the knowledge is carried through reads, collector passes, snapshot chunks, SetRunId of the same id and SetRunId of the FIRST id it asked with (fresh directory "
+        "or rename), and is DROPPED by SetRunId of any other id, DelRunId of a foreign id, a bare VerifyRunId and a restart (disk_callers_respect_protocol, "
+        "diskd_callers_respect_protocol). What remains assumed, each pinned or cited: (1) input.go / replica.go pass exactly these values and set exactly the first id they asked "
+        "with (source fact c05_writer_offset_flow; C06 delivers_something, C16 follower_contiguous: resp.GetOffset() >= sp.Offset is C16's); (2) `ask` happens with no writer open "
+        "— true since 7c24089 (D37: syncData's early return left its writer behind; fact lines syncData: rdbWriter.Close() / aofWriter.Close(), syncIncr / syncRdb: writer.Close()); "
+        "(3) PosOps: every writer is created at an offset > 0. Without it VerifyRunId skips a directory holding ONLY A SNAPSHOT AT OFFSET 0 after having switched to it "
+        "(`newest == 0 -> continue`) and the clearing sequence DelRunId(current); SetRunId(first id) LOADS that directory: driven on the real Storer (r4 residual i: VerifyRunId "
+        "[id1,id2] answers id2/510, DelRunId(id2), SetRunId(id1) loads (0,12), GetAofWritter(300): IsValidOffset(1..299) true, GetReader(100) not found; model = code line by line; "
+        "example in Props/C05Dirs.lean). Judged not a finding: a history snapshotted at offset 0 has no predecessor id holding data (PSYNC2 offsets continue across a fail-over), "
+        "and the cache stores what it is told; the root (`newest == 0` read as 'holds nothing') is shared with C06/C16's models of StartPoint and left alone. "
+        "(4) r4 residual ii, driven on the real Storer and since REPAIRED at its source in /repo 23dcc75 (C06 owner: syncMeta keeps the offset it asked PSYNC with; branch 4 no longer "
+        "re-reads the cache with GetOffsetRange — the two fact lines are gone from c05_writer_offset_flow, the caller model never had a second read): before it, a collector pass that "
+        "emptied the cache between GetRdb and GetOffsetRange made syncMeta pass NewAofWritter(-1). A NEGATIVE writer offset is accepted by both backends (disk: file -1.aof, the bytes "
+        "are stored and served at the offsets the writer claimed): judged not a C05 issue — the cache is faithful to the offset it is given, an empty cache accepts any offset "
+        "(`cleared`), no caller passes a negative offset any more (input.go: the PSYNC offset or the FULLRESYNC offset; replica.go: resp.GetOffset() = the leader's reader.Left(), a "
+        "valid offset of the leader's cache), and offsets are naturals in the model. The disk backend itself does not refuse a discontinuous writer (the memory backend does: mem_refuses_discontinuous)",
         "a replication-id SWITCH on the disk backend happens between two runs of the input: no writer open (readers may be open and are closed by it); "
         "the same id again is allowed at any time (D27 fixed: it no longer re-scans)",
         "thread interleavings INSIDE one mutex-protected step are outside the step-level model (the rotation window of tryReadNextFile is driven separately, monitor only); "
         "a real-goroutine stress phase (writer closed while an endless 1-byte source is being ingested) supports the tie and found D26",
         "memory harness: an append is limited to one mutex-protected piece whenever the collector could run inside it (between two pieces the copy goroutines race with the writer)",
-        "the disk model has one run-id directory (SetRunId between two existing directories / DelRunId of a foreign id are C16's subject)",
+        "several run-id directories (DiskD): SetRunId to another id (fresh, rename, existing directory), DelRunId of a foreign id, VerifyRunId that switches and restart "
+        "happen with no writer open (DiskD.okOp; the generator issues them between two runs of the input); a restart is a CLEAN stop (unclean stops are C08's); "
+        "SetRunId(\"\") / (\"?\") are no-ops in model and — since 02e084c (D38: '?' renamed the current directory) — in the code, generated (dsetrun ? / dsetrun -); "
+        "not operations of the model because unreachable: SetRunId's `!ExistReplId(old)` branch (the current directory always exists once D38 is fixed), initDataSet returning nil "
+        "(its Walk callback swallows every error: dead code), and the scan-before-close order of newRunId (equal to close-then-scan when no writer is open, which DiskD.okOp requires); the ghost history of a directory is parked with it (a rename relabels it)",
+        "memory window theorem (mem_window_readers_true): SrcOkW — every chunk handed to a stream writer is the source's bytes at the end of that writer's segment, "
+        "one source function for the whole list (two histories with different bytes at one offset are outside it); the window is NOT driven on the real code "
+        "(no yield point between the two lock sections; c05_fn_MemoryChannel.NewAofWritter / appendAof / ensureCapacityLocked / finishAof digests pin the transcription; "
+        "mem_window_no_wake_is_atomic ties the window model to the driven atomic step)",
         "C05chan is monitor-only (apart from the reference count after close): with real pump goroutines the segment a reader holds at a given instant is not a function of the op sequence; "
         "its real-time budgets are 10-20 s per wait (a machine that stalls a goroutine longer gives a false reader-stalls/invalidated-reader-hangs)",
         "the sequential harnesses diff reference counts, per-segment sizes and the directory listing with the model after every op: a change of the reference discipline "
@@ -97,16 +227,28 @@ PROP = {
     ],
     "partial": [
         "memory backend: the global theorems (mem_invariant, mem_refines, mem_reader_delivers, mem_valid_iff_readable, mem_snapshot_offered_complete_or_live, "
-        "mem_history_records_appends, mem_snapshot_reader_delivers) hold for ALL operation lists with NO hypothesis; what they do NOT say: (a) the model has no ghost for the "
-        "snapshot's SOURCE bytes: proved is that a copy loop replaying the offered snapshot wrote exactly the first pos bytes the snapshot HOLDS, in order, and that an offered "
-        "snapshot has size <= written = bytes held, contiguous from 0; that the bytes held are the bytes received is the append step's definition + correspondence + monitor; "
+        "mem_history_records_appends, mem_snapshot_reader_delivers, mem_snapshot_holds_received, mem_snapshot_reader_delivers_received, mem_tail_invariant, "
+        "mem_reader_delivers_next) hold for ALL operation lists with NO hypothesis; what they do NOT say: (a) [closed in session 4] the ghost mReceived records the "
+        "announcement and the bytes appendRdb reported as written, computed from the chunks and the count the append loop returns; an offered snapshot holds exactly them, "
+        "a snapshot reader delivered their first pos bytes, a snapshot without writer is complete. The count is tied to the operation OUTPUT: "
+        ".blocked n took exactly n bytes (mem_received_blocked_prefix), any other answer of a live, not already blocked writer took the WHOLE chunk (mem_received_whole_chunk); "
+        "a retry's count is only bounded by what was waiting (no output to tie it to); `blocked n` with n > 0 is now DRIVEN (multi-piece snapshot appends whenever no copy goroutine runs; "
+        "corpus s4_snapshot_append_blocks_after_prefix: blocked 8 / blocked 20); the harness compares the held bytes with what it fed after every op "
+        "(monitor snapshot-bytes-wrong + recv field); "
         "(b) nothing is claimed of a copy loop after it returned or after its segment left the index (it ends or fails: step facts mem_stale_reader_has_no_successor, "
         "mem_reset_empties_index — that it cannot deliver OTHER bytes afterwards follows from mem_reader_delivers only while it holds an indexed segment; for heap segments "
-        "(immutable, closed) it is the correspondence); (c) progress (a reader reaches the tail) is not proved, as on disk; (d) the consumer side (pipe, bufio) is modelled "
+        "(immutable, closed) it is the correspondence); (c) progress: one catch-up STEP is proved for both backends (disk_reader_delivers_next / disk_valid_offset_has_delivering_move: Disk.follow, also with a collector pass "
+        "inside the rotation, delivers >= 1 byte of the history whenever the reader is below the writer's end; mem_reader_delivers_next: two copy-loop iterations deliver >= 1 byte; "
+        "invariant mem_tail_invariant: every indexed segment but the writer's is closed and non-empty); mem_valid_offset_has_delivering_move: a covered offset below the end can be opened and the started reader delivers within two iterations); "
+        "offsets SERVED BY THE SNAPSHOT: disk_snapshot_reader_delivers_next / disk_valid_snapshot_offset_has_delivering_move (a snapshot reader below what the file holds gets >= 1 byte; "
+        "a snapshot without writer holds all size bytes); the MEMORY counterpart for snapshot readers is not proved (needs 'every snapshot segment but the writer's is closed and non-empty'); "
+        "NOT proved: the reader REACHES the end under a fair schedule (liveness), and nothing about the consumer side of the pipe (a full pipe blocks the copy loop: writeAll); (d) the consumer side (pipe, bufio) is modelled "
         "(buf/bbuf) but `out` is what the copy loop wrote to the pipe — that the consumer reads exactly `out` is the consume step's definition + correspondence",
-        "memory model vs code, differences that remain (each property-neutral, reasons): (1) NewAofWritter is two lock sections in the code (install the new writer; old.Close() -> finishAof(old)) "
-        "and one step in the model: in the window an old writer blocked on capacity that is woken re-checks only capacity and may append to its (no longer last) segment — the bytes are the "
-        "source's bytes at those offsets and the new writer starts at the same offset, so readers get the same bytes either way; the window has no yield point under synctest and is not driven; "
+        "memory model vs code, differences that remain (each property-neutral, reasons): (1) [modelled in session 4] NewAofWritter's two lock sections are three steps of "
+        "Model/StoreMemWindow.lean (install / oldWake / finishOld, any operation in between); proved for ALL such lists under SrcOkW: every reader holding an indexed segment "
+        "delivered src[start,pos), every indexed segment holds the source's bytes (mem_window_readers_true, mem_window_segments_true) although the index is no longer contiguous "
+        "after the stray append (example exWindowOps). NOT proved for the window model: the shape theorems (MemInv: contiguity, valid <-> readable, range) — they are false there by "
+        "design of the code (continuousAofStartIndexLocked cuts the range at the overlap: offsets below it become invalid, never wrongly valid — argued, not proved); the window is not driven; "
         "(2) a writer that dies WHILE BLOCKED may run one more collector pass before it sees EOF (ensureCapacityLocked selects between spaceNotify and done, both ready): it can drop the closed, "
         "unreferenced segment it just wrote — retention only; the generator closes/replaces a blocked writer only while the oldest segment is pinned by a reader, where the outcome is a function "
         "of the operations; (3) `rdbFail` models the source failing between two chunks; a Read that returns the LAST bytes together with an error (io.Reader allows it, bufio over a socket rarely does) "
@@ -121,7 +263,13 @@ PROP = {
         "a separate abstract transition system with a simulation relation is not defined",
         "findings of the real-goroutine phases (concurrent phase, invalidation, snapshot race, memory stress) are not replayable inputs: the replay names backend, scenario and seed only",
         "concurrency: real-goroutine phases (memory writer close vs rotation; C05chan: writer + followers + openers + collector) are probabilistic support, not run under -race",
-        "disk_reader_progress is one-step enabledness (a read delivers or the rotation step is enabled); a catch-up theorem (the reader REACHES the end under interleaved gc/appends) is not proved",
+        "disk progress: disk_reader_delivers_next is the catch-up STEP (AofRotateReader.read delivers >= 1 byte below the writer's end, with or without a collector pass in the rotation); "
+        "that the reader REACHES the end under interleaved gc/appends (a fairness / liveness statement) is not proved",
+        "several directories: DInvD carries the invariant of every parked directory; KeysInv (no directory under '' / '?' / the current id) and PosD are proved for all runs "
+        "(diskd_keys_and_positive); that two PARKED directories have different ids is not stated (parkCur puts the current id in front, dirLookup takes the first: a duplicate "
+        "would shadow, never mix, bytes); the tie for parked directories is file NAME:SIZE per directory in ddump, contents only when switched back and read; the file-level content of parked directories (headers, CRC) is C08's model, here a parked "
+        "directory is the Disk value it was closed as; VerifyRunId's answer is compared (dverify ok <offset>) and monitored (startpoint-not-latest) but StoreChannel.StartPoint's mapping of it "
+        "('?' for offset < 0) is C06's",
     ],
 }
 
@@ -134,10 +282,18 @@ MANIFEST = {
             "Memory (MemoryChannel): the same is proved GLOBALLY for ALL operation lists with no hypothesis (invariant MemInv, preserved by every operation incl. capacity-blocked "
             "appends, retries, collector passes inside appends, resets, every single copy-loop iteration): the cache holds the suffix of the written history from its base, every "
             "copy loop holding an indexed segment wrote to its pipe exactly the bytes appended at [start,pos), valid <-> a reader can be opened (the snapshot's own offset only while "
-            "the log starts there), an offered snapshot is live or completely received with every received byte held, and a copy loop replaying it wrote exactly the first pos bytes it holds. Tie: generated op sequences on the real Storer and the real MemoryChannel (synctest), every answer, "
-            "reference count and byte compared with the model and with independent bookkeeping.",
-    "note": "trusted: Lean kernel, harness, synctest quiescence; assumptions: callers' protocol for disk writers (continuity; no writer open at an id switch); "
-            "partial: no ghost for the snapshot's source bytes in the memory model, one-step progress instead of a catch-up theorem. "
-            "Defects fixed: D14 (memory+disk), D17, D20-D31 (see known_findings.d/C05.json; D31 = reader orphaned by the trim of an empty live segment; D27 = re-scan with open readers at every source reconnect, D28 = reset dead-lock with two tailing readers, D29 = snapshot reader open vs commit race, D30 = memory collector breaks the snapshot->log hand-over, fixed by c06).",
+            "the log starts there), an offered snapshot is live or completely received with every received byte held, and a copy loop replaying it wrote exactly the first pos bytes it holds. "
+            "Session 4: the offered memory snapshot holds, and its readers deliver, exactly the bytes RECEIVED for the last announcement (ghost computed from the chunks and the "
+            "append's count); the disk writers' continuity protocol is derived from what the callers pass (the answer of an earlier LatestOffset query stays a continuation through "
+            "reads, collector passes and id switches); the disk theorems hold per id with several run-id directories in one store (switch to an existing directory, delete of a "
+            "foreign id, VerifyRunId, restart; switch away and back restores); progress as safety on both backends (a reader below the writer's end has a delivering step; every "
+            "indexed memory segment but the writer's is closed and non-empty); NewAofWritter's two lock sections as three steps: readers deliver the source's bytes through the window. "
+            "Tie: generated op sequences on the real Storer and the real MemoryChannel (synctest), every answer, "
+            "reference count and byte compared with the model and with independent bookkeeping; source facts pin the callers' offset flow and the hand-transcribed functions.",
+    "note": "trusted: Lean kernel, harness, synctest quiescence; assumptions: input.go / replica.go pass the values the caller model names (pinned as source facts), no writer open "
+            "at an id switch / restart, SrcOkW for the window theorem; partial: catch-up STEP instead of a liveness theorem, the NewAofWritter window is modelled and proved but not driven, "
+            "the count of a RETRIED snapshot append is tied by the harness only. "
+            "Defects fixed: D14 (memory+disk), D17, D20-D31, D36-D38 (see known_findings.d/C05.json; D37 = RedisInput.syncData left the writer it had created behind on its early return: a snapshot nobody "
+            "would write stayed offered; D38 = Storer.SetRunId('?') renamed the current directory; D31 = reader orphaned by the trim of an empty live segment; D27 = re-scan with open readers at every source reconnect, D28 = reset dead-lock with two tailing readers, D29 = snapshot reader open vs commit race, D30 = memory collector breaks the snapshot->log hand-over, fixed by c06).",
     "technique": "Lean 4 proof (invariant over arbitrary operation lists, step-level refinement) + differential correspondence on generated operation sequences",
 }
